@@ -240,6 +240,10 @@ func Flush() {
 
 // Main is the TestMain body of every harness package.
 func Main(m *testing.M) {
+	if name := os.Getenv("VERIF_CHILD"); name != "" {
+		runChild(name)
+		os.Exit(0)
+	}
 	code := m.Run()
 	Flush()
 	os.Exit(code)
